@@ -355,6 +355,14 @@ impl<E, Ix: IndexType> Build for List<E, Ix> {
     ///
     /// **Panics** if the source node does not exist.<br>
     fn update_edge(&mut self, a: NodeIndex<Ix>, b: NodeIndex<Ix>, weight: E) -> EdgeIndex<Ix> {
+        // like `add_edge`: never record an edge to a node that does not exist
+        if b.index() >= self.suc.len() {
+            panic!(
+                "{} is not a valid node index for a {} nodes adjacency list",
+                b.index(),
+                self.suc.len()
+            );
+        }
         let row = &mut self.suc[a.index()];
         for (i, info) in row.iter_mut().enumerate() {
             if info.suc == b {
